@@ -182,6 +182,24 @@ func init() {
 			return false
 		},
 		rule: common + "contains a refresh by an authenticated client after a registration change or with smuggled scope/audience parameters"})
+	// the flow half of C12: accepted requests are covered by the registration, tokens carry the grant (judged as a part of ./check C12)
+	regHist(&histProp{id: "C12H", profile: mk("C12H", func(p *Profile) {
+		p.WAuthorize, p.WPassword, p.WClientCreds, p.WPush, p.WAuthorizePAR, p.WDeviceAuth, p.WDecide, p.WDevicePoll = 20, 12, 8, 8, 6, 8, 6, 6
+		p.WRefresh, p.WRedeem, p.WSetClient, p.WRevoke, p.WAdvance = 16, 14, 12, 2, 3
+		p.Hybrid, p.Implicit, p.Bad = 20, 20, 8
+	}), module: "Cases.Monitors", checkFn: "check_C12H", quickN: 300, thoroN: 4000,
+		nontriv: func(h *HHistory, obs []HObs) bool {
+			for i, op := range h.Ops {
+				switch op.Kind {
+				case "authorize", "password", "clientcreds", "push", "device_auth":
+					if obs[i].Err == "invalid_scope" || obs[i].Err == "invalid_request" {
+						return true
+					}
+				}
+			}
+			return false
+		},
+		rule: common + "contains a request with scopes/audience that an endpoint refused as not covered (invalid_scope / invalid_request)"})
 	regHist(&histProp{id: "C07", profile: mk("C07", func(p *Profile) { p.ShortLives = 85; p.WAdvance = 26; p.WIntrospect = 8 }),
 		module: "Cases.Monitors", checkFn: "check_C07", quickN: 300, thoroN: 4000,
 		nontriv: expiryObserved,
